@@ -104,15 +104,31 @@ def run_shard(shard, ctx):
     if shard[0] == "long":
         r = shard[1]
         B = bpms(r)
-        for n in (9, 10, 16, 17, 18, 33, 65):
+        for n in (9, 10, 16, 17, 18, 33, 34, 65, 130):
             for gaps in ((1,), (2, 1), (7, 1, 1)):
                 ticks, t = [], 0
                 for i in range(n):
                     ticks.append(t)
                     t += gaps[i % len(gaps)]
                 tempo = [(tk, B[(i * 2 + n) % len(B)]) for i, tk in enumerate(ticks)]
-                text = build(r, tempo)
                 strict = all(nn * r <= 3 * 10**10 for _, nn in tempo)
+                # the same map with SPARSE events: consecutive events of a kind lie many tempo changes apart
+                # (long hops from a non-zero hint), one sustain crosses all the changes in between
+                early, late = ticks[2] + 0, ticks[-2]
+                sp_sync = ["%d = B %d" % tn for tn in tempo] + ["0 = TS 4", "%d = TS 3" % early, "%d = TS 5" % late, "%d = TS 7" % (ticks[-1] + 2)]
+                sp_ev = ['%d = E "%s"' % (t, w) for w in ("x", "section s", "lyric l") for t in (early, late, ticks[-1] + 2)]
+                sp_a = ["%d = N 1 %d" % (early, late - early + 1), "%d = S 2 1" % early, "%d = E a" % early, "%d = N 2 0" % late, "%d = S 2 1" % late, "%d = E b" % late, "%d = N 3 0" % (ticks[-1] + 2)]
+                sp_b = ["%d = N 7 0" % early, "%d = N 7 2" % (ticks[-1] + 1)]
+                sp_text = mk(res=r, sync=sp_sync, events=sp_ev, tracks=[("ExpertSingle", sp_a), ("HardDrums", sp_b)])
+                srcp = "STRICT = %r\nFIRST_CHANGE = 0\n" % strict + FAR_SRC.strip("\n")
+                got_sp = e1.run_probe(e1.compile_probe(srcp), sp_text)
+                ctx.case((r, tuple(tempo), "sparse"))
+                ctx.evaluations += 20
+                if isinstance(got_sp, list) and got_sp[:1] == ["raises"]:
+                    ctx.hist["undecided(parse or query raises; owned by C01/C08/C15)"] += 1
+                elif got_sp != "monotone":
+                    e1.report(ctx, "monotone", sp_text, srcp, ["monotone"], got_sp, "resolution %d, tempo map of %d events, sparse events at ticks %d and %d" % (r, n, early, late), extra_case=dict(far=[strict, 0]))
+                text = build(r, tempo)
                 got = e1.run_probe(probes[strict], text)
                 ctx.case((r, tuple(tempo)), sample=lambda: dict(resolution=r, tempo_events=n))
                 ctx.evaluations += 3 * (ticks[-1] + 5)
